@@ -125,6 +125,7 @@ Inductive pop :=
 | PSignCp (ch : N) (c : content) (other_ok : bool)   (* [other_ok]: every non-payment check passed *)
 | PValidateHolder (ch : N) (c : content) (other_ok : bool)
 | PRevoke (ch : N)
+| PFulfil (h : N)      (* Channel::htlcs_fulfilled with the preimage of hash [h] *)
 | PRestart.
 
 (** restore: the ledger is rebuilt from the current commitments of every channel
@@ -174,6 +175,12 @@ Definition pstep (s : pnode) (o : pop) : pnode * bool :=
                  let p := chans s ch in
                  (set_chan s1 ch (mkPC (Some c) (ccur p) None), true)
            end
+  | PFulfil _ =>
+      (* NodeState::htlc_fulfilled records the preimage in a payment entry that EXISTS and marks
+         an issued invoice; it creates no entry and changes no in-flight amount (the balance
+         register it feeds is only read under enforce_balance, which the policies here leave
+         off): nothing this model tracks moves *)
+      (s, true)
   | PRestart => (restore s, true)
   end.
 
